@@ -65,6 +65,7 @@ def run(check, prog):
     constructors(check, prog)
     csg_motion(check, prog)
     bounds_search(check, prog)
+    domain_count(check, prog)
     # the region of a centred scatterer moves by the vector: centre' = centre + v
     from . import c19
     c19.scatterer_translated(check, prog)
@@ -790,3 +791,41 @@ def bounds_search(check, prog):
     check.require(len(rows) == 6 and not bad, 'K6-bounds-search', 'find_bounds',
                   'six searches, each from a fresh point on its own axis '
                   '(%d found)' % len(rows), loc, fail_detail='; '.join(bad[:3]))
+
+
+def domain_count(check, prog):
+    """K7: the set operations accept every primitive shape: their constructor asks
+    each operand for its number of domains, which for every class that does not
+    override it is `len(self.indicators)` -- so what `indicators` returns must
+    support len().  (An object without __len__ makes Union / Difference /
+    Intersection raise TypeError for every ellipsoid, spheroid, capsule, ...)"""
+    base = SC + 'scatterer.Scatterer'
+    bad = []
+    n = 0
+    for C in sorted(prog.subclasses(base)):
+        hit = prog.lookup(C, 'num_domains')
+        own = prog.lookup(C, 'indicators')
+        if not hit or not own:
+            continue
+        it = Interp(prog, max_depth=2, inline_new=False)
+        it.types[sym('self')] = C
+        try:
+            res = it.analyze(hit[1] + '.num_domains')
+        except AnalysisError:
+            continue
+        n += 1
+        for x in subterms(res.ret):
+            if x[0] == 'call' and x[1] == 'len' and len(x[2]) == 1 and \
+                    x[2][0][0] == 'new' and x[2][0][1] in prog.classes:
+                K = x[2][0][1]
+                if not prog.lookup(K, '__len__'):
+                    bad.append('%s.num_domains = len(<%s>): %s has no __len__' % (
+                        C.rpartition('.')[2], K.rpartition('.')[2], K.rpartition('.')[2]))
+    q = base + '.num_domains'
+    fd = prog.func(q)
+    check.floor('shapes whose domain count was evaluated', n, 6)
+    check.require(not bad, 'K7-domain-count', 'Scatterer.num_domains',
+                  'the domain count of every primitive shape can be computed '
+                  '(%d shapes)' % n, prog.loc(q, fd),
+                  fail_detail='; '.join(bad[:3]) + ': a union, difference or intersection '
+                  'with such an operand raises TypeError in CsgScatterer.__init__')
